@@ -1413,12 +1413,31 @@ pub fn gen_producers(rng: &mut Rng) -> Vec<(String, Vec<(String, String)>)> {
     if rng.chance(1, 3) {
         tools.push(("wasm-bindgen".to_string(), "0.2.92".to_string()));
     }
+    // shapes the reference decoder accepts although no tool chain writes them on purpose: the same tool
+    // twice in one field (a linker run after two compiler versions), the same field name twice, an empty field
+    let odd = rng.chance(1, 3);
+    if odd && rng.chance(1, 2) {
+        tools.push(("clang".to_string(), "15.0.7".to_string()));
+        tools.push(("wasm-ld".to_string(), "16.0.0".to_string()));
+        tools.push(("clang".to_string(), "16.0.0".to_string()));
+    }
     if !tools.is_empty() {
-        rng.shuffle(&mut tools);
+        if !odd {
+            rng.shuffle(&mut tools);
+        }
         out.push(("processed-by".to_string(), tools));
     }
     if rng.chance(1, 3) {
         out.push(("sdk".to_string(), vec![("emscripten".to_string(), "3.1.0".to_string())]));
+    }
+    if odd && rng.chance(1, 2) {
+        out.push(("processed-by".to_string(), vec![("wasm-opt".to_string(), "116".to_string())]));
+    }
+    if odd && rng.chance(1, 3) {
+        out.push(("language".to_string(), vec![("C".to_string(), "11".to_string()), ("C".to_string(), "17".to_string())]));
+    }
+    if odd && rng.chance(1, 3) {
+        out.push(("sdk".to_string(), vec![]));
     }
     out
 }
@@ -1429,9 +1448,19 @@ pub fn gen_customs(m: &mut MSpec, rng: &mut Rng) {
         // near misses of the interpreted names: prefix/suffix/infix, case
         "reloc..debug_line", "app.debug", "x.debug_info", ".Debug_info", "Name", "my.producers",
     ];
-    let n = rng.below(7);
+    // sections walrus does interpret (.debug*), mixed between the unknown ones in a third of the modules:
+    // their content never reaches gimli's unit parser (.debug_info stays empty)
+    const DEBUG_NAMES: [&str; 4] = [".debug_str", ".debug_abbrev", ".debug_foo", ".debug_info"];
+    let mix_debug = rng.chance(1, 3);
+    let n = rng.below(7) + if mix_debug { 2 } else { 0 };
     let places = [0u8, 1, 2, 3, 4, 5, 6, 7, 8, 9, 10, 11, 12, 254, 255];
     for i in 0..n {
+        if mix_debug && rng.chance(1, 3) {
+            let name = rng.pick(&DEBUG_NAMES).to_string();
+            let data: Vec<u8> = if name == ".debug_info" { vec![] } else { (0..rng.below(12)).map(|_| rng.next() as u8).collect() };
+            m.customs.push(CustomSpec { name, data, before: *rng.pick(&places) });
+            continue;
+        }
         let name = if rng.chance(1, 6) && i > 0 { m.customs[rng.below(m.customs.len() as u64) as usize].name.clone() } else { rng.pick(&NAMES).to_string() };
         let len = rng.below(40) as usize;
         let tag = fnv64(&[i as u8, rng.next() as u8, rng.next() as u8, rng.next() as u8]);
